@@ -117,18 +117,24 @@ impl Ctx {
     fn exec(&self, op: &Op) -> Res {
         let seed = self.plan.seed;
         match &op.kind {
-            OpKind::Open { inst, key, dir, alo, fsync } => {
-                let mut b = Walrus::builder().data_dir(std::path::PathBuf::from(dir));
-                if let Some(k) = key {
-                    b = b.key(k);
-                }
-                b = b.consistency(if *alo == 0 {
-                    ReadConsistency::StrictlyAtOnce
+            OpKind::Open { inst, key, dir, alo, fsync, via_env } => {
+                let mode = if *alo == 0 { ReadConsistency::StrictlyAtOnce } else { ReadConsistency::AtLeastOnce { persist_every: *alo } };
+                let built = if *via_env {
+                    // the environment is process-global; only one simulated thread runs at a time, so setting it
+                    // right before the constructor reads it is a legal sequential use
+                    std::env::set_var("WALRUS_DATA_DIR", dir);
+                    match key {
+                        Some(k) => Walrus::with_consistency_and_schedule_for_key(k, mode, parse_fsync(fsync)),
+                        None => Walrus::with_consistency_and_schedule(mode, parse_fsync(fsync)),
+                    }
                 } else {
-                    ReadConsistency::AtLeastOnce { persist_every: *alo }
-                });
-                b = b.fsync_schedule(parse_fsync(fsync));
-                match b.build() {
+                    let mut b = Walrus::builder().data_dir(std::path::PathBuf::from(dir));
+                    if let Some(k) = key {
+                        b = b.key(k);
+                    }
+                    b.consistency(mode).fsync_schedule(parse_fsync(fsync)).build()
+                };
+                match built {
                     Ok(w) => {
                         self.insts.lock().unwrap().insert(*inst, Arc::new(w));
                         ok_res()
